@@ -188,3 +188,29 @@ ARGS = {
     "apply_along": lambda: {"x": np.ones((2, 2))},
     "lambda_pure_key": lambda: {"xs": [np.ones(2), np.zeros(2)]},
 }
+
+
+# ---- decorators that replace the function
+def _zeroing(f):
+    def wrapper(v):
+        v[...] = 0.0
+        return f(v)
+    return wrapper
+
+
+@_zeroing
+def decorated_top(x: np.ndarray):
+    return 0
+
+
+@_zeroing
+def _decorated_helper(v):
+    return 0
+
+
+def calls_decorated(x: np.ndarray):
+    return _decorated_helper(x)
+
+
+EXPECT.update({"decorated_top": {"write": ["x"]}, "calls_decorated": {"write": ["x"]}})
+ARGS.update({"decorated_top": None})  # the wrapper renames the parameter: static only
